@@ -4,7 +4,7 @@
    number: the bound of the second lands on the first, silently). *)
 From Coq Require Import QArith List Ascii String Bool Arith NArith Lia Lqa.
 From QSX Require Import Base.QSum LP.User IO.Num IO.NumSound IO.Bounds IO.Ranges IO.Lex IO.Equiv IO.LpWrite IO.LpRead IO.LpTok IO.LpFinish
-  IO.LpRoundtrip IO.LpBytes IO.MpsWrite IO.MpsRead IO.MpsTotal IO.MpsTok IO.MpsSections IO.MpsEquiv IO.MpsRoundtrip.
+  IO.LpRoundtrip IO.LpBytes IO.LpNames IO.MpsWrite IO.MpsRead IO.MpsTotal IO.MpsTok IO.MpsSections IO.MpsEquiv IO.MpsRoundtrip.
 Import ListNotations.
 Local Open Scope Q_scope.
 
@@ -49,11 +49,10 @@ Section B.
     - intros H. apply existsb_exists. exists n. split; [exact H|apply leqb_refl].
   Qed.
 
-  Theorem wf_mpsb_sound P : wf_mpsb P = true -> wf_mps M P.
+  Theorem wf_coreb_sound P : wf_coreb P = true -> wf_core M P.
   Proof.
-    unfold wf_mpsb, wf_coreb, setnames_okb, usedb. cbv zeta. intros H.
-    apply andb_true_iff in H as [C S]. rewrite !andb_true_iff in C. rewrite !andb_true_iff in S.
-    destruct C as ((((((((((((A1 & A2) & A3) & A4) & A5) & A6) & A7) & A8) & A9) & A10) & A11) & A12) & A13). destruct S as ((S1 & S2) & S3).
+    unfold wf_coreb, usedb. cbv zeta. intros C. rewrite !andb_true_iff in C.
+    destruct C as ((((((((((((A1 & A2) & A3) & A4) & A5) & A6) & A7) & A8) & A9) & A10) & A11) & A12) & A13).
     constructor.
     - now apply nameokb_ok.
     - intros c IC. rewrite forallb_forall in A2. now apply nameokb_ok, A2.
@@ -70,6 +69,13 @@ Section B.
     - intros c IC HR. rewrite forallb_forall in A13. specialize (A13 c IC). apply orb_true_iff in A13 as [N|D].
       + exfalso. apply HR. fold (recs c). destruct (recs c); [reflexivity|discriminate].
       + unfold no_dollarb in D. unfold no_dollar. destruct (mc_name c) as [|x t]; [exact I|]. apply negb_true_iff in D. intros ->. discriminate.
+  Qed.
+
+  Theorem wf_mpsb_sound P : wf_mpsb P = true -> wf_mps M P.
+  Proof.
+    unfold wf_mpsb. intros H. apply andb_true_iff in H as [C S]. split; [now apply wf_coreb_sound|].
+    unfold setnames_okb, usedb in S. cbv zeta in S. rewrite !andb_true_iff in S. destruct S as ((S1 & S2) & S3).
+    unfold set_ok. split; [|split].
     - intros IN r IR NE. apply orb_true_iff in S1 as [N|F].
       + apply negb_true_iff in N. apply existsb_leqb_in in IN. unfold row_names in IN. congruence.
       + rewrite forallb_forall in F. specialize (F r IR). apply orb_true_iff in F as [X|X]; [destruct (rhs_entry r); [discriminate|congruence]|now apply negb_true_iff in X].
@@ -80,6 +86,42 @@ Section B.
       + apply negb_true_iff in N. apply existsb_leqb_in in IN. congruence.
       + rewrite forallb_forall in F. specialize (F c IC). apply orb_true_iff in F as [X|X]; [|now apply negb_true_iff in X].
         exfalso. apply HR. fold (recs c). destruct (recs c); [reflexivity|discriminate].
+  Qed.
+
+  (* ---- the repaired writer: set names that no row (column) carries ------------------------------------------------------------- *)
+  Definition fixed_names (P : mlp) : name * name * name :=
+    let rn := m_objname P :: map mr_name (m_rows P) in
+    (uname rn (s2l "RHS") [] None, uname rn (s2l "RANGE") [] None, uname (map mc_name (m_cols P)) (s2l "BOUND") [] None).
+  Definition write_mps_fixed (P : mlp) : list line :=
+    let '(a, b, c) := fixed_names P in render_gen a b c (sections_of M P).
+
+  Lemma word_app a b : word a -> forallb wchar b = true -> word (a ++ b).
+  Proof. intros [NE H] HB. split; [destruct a; [congruence|discriminate]|]. now rewrite forallb_app, H, HB. Qed.
+
+  Lemma word_uname tab base : word base -> word (uname tab base [] None).
+  Proof.
+    intros W. unfold uname. cbn [app]. destruct (negb (mem base tab)); [exact W|].
+    destruct (first_free_spec base tab (List.length tab) 0) as (j & EQ & _). rewrite EQ. unfold cand.
+    apply word_app; [exact W|]. cbn [forallb]. apply andb_true_iff. split; [reflexivity|].
+    apply forallb_forall. intros c IN. pose proof (print_Z_numchar (Z.of_nat j)) as H. rewrite forallb_forall in H. apply numchar_facts, H, IN.
+  Qed.
+
+  Lemma uname_not_in tab base : ~ In (uname tab base [] None) tab.
+  Proof. intros IN. apply mem_In in IN. rewrite uname_fresh in IN. discriminate. Qed.
+
+  Theorem mps_roundtrip_fixed : 0 < M -> forall P, wf_core M P ->
+    exists P', read_mps true M (write_mps_fixed P) = Some P' /\ equiv_by_name (mlp_to_nlp P) (mlp_to_nlp P') = true.
+  Proof.
+    intros HM P WC. unfold write_mps_fixed, fixed_names. cbv zeta.
+    set (rn := m_objname P :: map mr_name (m_rows P)).
+    apply (mps_roundtrip_gen M HM P (uname rn (s2l "RHS") [] None) (uname rn (s2l "RANGE") [] None) (uname (map mc_name (m_cols P)) (s2l "BOUND") [] None));
+      try (apply word_uname; split; [discriminate|reflexivity]); [exact WC|].
+    assert (SUB : forall n, In n (row_names P) -> In n rn).
+    { unfold row_names, rn. intros n [<-|IN]; [now left|right]. apply in_map_iff in IN as (r & <- & IR). apply in_map. apply filter_In in IR. apply IR. }
+    unfold set_ok. split; [|split].
+    - intros IN. exfalso. exact (uname_not_in rn _ (SUB _ IN)).
+    - intros IN. exfalso. exact (uname_not_in rn _ (SUB _ IN)).
+    - intros IN. exfalso. exact (uname_not_in _ _ IN).
   Qed.
 End B.
 
